@@ -78,6 +78,15 @@ def run(ctx: Ctx) -> None:
     o, h = do_update(lambda: HDict({"layers": [HDict({"name": a, "type": b})]}), lambda: HDict({"layers": [HDict({"type": n})]}), False)
     got = [dict(x) for x in h["d1"]["layers"]] if o.kind == "return" else o.exc
     ctx.check(got == [{"name": a, "type": b}], "U2", "list merge honours overwrite=False", loc_u, "", f"{got!r}")
+    # the overwrite flag travels down through nested dicts (directly, two levels deep, and below a list item)
+    o, h = do_update(lambda: HDict({"web": HDict({"p": a, "meta": HDict({"t": b})})}), lambda: HDict({"web": HDict({"p": n, "r": c, "meta": HDict({"t": n, "u": c})})}), False)
+    got = snap(h["d1"]) if o.kind == "return" else o.exc
+    want = snap(HDict({"web": HDict({"p": a, "meta": HDict({"t": b, "u": c}), "r": c})}))
+    okw = o.kind == "return" and dict(h["d1"]["web"]["meta"]) == {"t": b, "u": c} and h["d1"]["web"]["p"] is a and h["d1"]["web"].get("r") is c
+    ctx.check(okw, "U2", "nested dict merge honours overwrite=False at every depth", loc_u, "", f"update({{web: {{p, meta: {{t}}}}}}, {{web: {{p', r, meta: {{t', u}}}}}}, overwrite=False) gives {h['d1']!r}; existing p and meta.t must keep their values, r and meta.u are added")
+    o, h = do_update(lambda: HDict({"layers": [HDict({"name": a, "metadata": HDict({"t": b})})]}), lambda: HDict({"layers": [HDict({"metadata": HDict({"t": n, "u": c})})]}), False)
+    okl = o.kind == "return" and dict(h["d1"]["layers"][0]["metadata"]) == {"t": b, "u": c}
+    ctx.check(okl, "U2", "overwrite=False holds for an object nested inside a list item", loc_u, "", f"update(layers[0].metadata {{t}}, {{t', u}}, overwrite=False) gives {h['d1']!r}")
     o, h = do_update(lambda: HDict({"x": a}), lambda: HDict({"layers": [HDict({"name": n})]}))
     got = [dict(x) for x in h["d1"].get("layers", [])] if o.kind == "return" else o.exc
     ctx.check(got == [{"name": n}], "U2", "list of dicts added to a d1 without the key", loc_u, "", f"{got!r}")
